@@ -305,3 +305,466 @@ Lemma post_ctx_gt_un u : unary_bp u < post_ctx.
 Proof. unfold post_ctx. destruct u; lia. Qed.
 Lemma post_ctx_gt_l op : l_bp op < post_ctx.
 Proof. pose proof (tf_un_l the_table op Not). pose proof (post_ctx_gt_un Not). lia. Qed.
+
+(* ------------------------------------------------------------------ the round trip *)
+Scheme aexpr_mut := Induction for aexpr Sort Prop
+  with aexprs_mut := Induction for aexprs Sort Prop.
+Combined Scheme aexpr_mutind from aexpr_mut, aexprs_mut.
+
+Definition postfix_start (t : ptok) : bool :=
+  match t with TDot | TLP | TLB => true | _ => false end.
+
+(* the text after an operand does not continue it at binding power k *)
+Definition stops (k : Z) (rest : list ptok) : Prop :=
+  match rest with
+  | [] => True
+  | t :: _ => postfix_start t = false /\ match t with TOp h => l_bp h < k | _ => True end
+  end.
+
+Lemma stops_mono k k' rest : k <= k' -> stops k rest -> stops k' rest.
+Proof.
+  intros Hk H. destruct rest as [|t r]; [exact I|]. destruct H as [H1 H2]. split; [exact H1|].
+  destruct t; try exact I. lia.
+Qed.
+
+Lemma stops_cont f m lhs rest : stops m rest -> cont (S f) m lhs rest = POk (lhs, rest).
+Proof.
+  intros H. rewrite cont_S. destruct rest as [|t r]; [reflexivity|]. destruct H as [H1 H2].
+  destruct t; try discriminate H1; try reflexivity.
+  apply Z.ltb_lt in H2. rewrite H2. reflexivity.
+Qed.
+
+(* Some k: printed without enclosing parentheses in context m', right-hand context k *)
+Definition opn (m' : Z) (a : aexpr) : option Z :=
+  match a with
+  | ABin op _ _ => if m' <=? l_bp op then Some (r_bp op) else None
+  | AUn u _ => if m' <=? unary_bp u then Some (unary_bp u) else None
+  | _ => None
+  end.
+
+Definition cond (a : aexpr) (m' : Z) (rest : list ptok) : Prop :=
+  match opn m' a with Some k => stops k rest | None => True end.
+
+Definition P (a : aexpr) : Prop :=
+  forall m m' rest res f1, m <= m' -> m' <= post_ctx -> cond a m' rest ->
+    cont f1 m (erase a) rest = POk res ->
+    exists f, parse_expr f m (pr m' a ++ rest) = POk res.
+
+Definition close_tok (c : closer) : ptok := match c with CBracket => TRB | CParen => TRP end.
+
+Definition Q (es : aexprs) : Prop :=
+  forall c rest,
+    (exists f, parse_elems f c (prs (list_bp c) es ++ close_tok c :: rest) = POk (erases es, rest)) /\
+    (es <> ANil ->
+     exists f, elems_loop f c (prs (list_bp c) es ++ close_tok c :: rest) = POk (erases es, rest)).
+
+Lemma wrap_parse body e m rest res f1 f2 :
+  parse_expr f2 paren_bp (body ++ TRP :: rest) = POk (e, TRP :: rest) ->
+  cont f1 m e rest = POk res ->
+  exists f, parse_expr f m (wrap body ++ rest) = POk res.
+Proof.
+  intros H2 H1. exists (S (Nat.max f1 f2)). unfold wrap. cbn [app]. rewrite <- app_assoc. cbn [app].
+  rewrite parse_expr_S. rewrite (mono_parse_expr f2 _ _ _ _ (Nat.le_max_r _ _) H2). cbn [pbind].
+  eapply mono_cont; [apply Nat.le_max_l| exact H1].
+Qed.
+
+Lemma list_bp_le_l c op : list_bp c <= l_bp op.
+Proof. destruct c; cbn [list_bp]; [apply (tf_elem the_table)|apply (tf_arg the_table)]. Qed.
+Lemma list_bp_le_u c u : list_bp c <= unary_bp u.
+Proof. destruct c; cbn [list_bp]; [apply (tf_elem_u the_table)|apply (tf_arg_u the_table)]. Qed.
+Lemma list_bp_le_post c : list_bp c <= post_ctx.
+Proof. pose proof (list_bp_le_u c Not). pose proof (post_ctx_gt_un Not). lia. Qed.
+
+Lemma cond_closed a m' t r :
+  postfix_start t = false -> (forall h, t <> TOp h) -> cond a m' (t :: r).
+Proof.
+  intros Hp Hop. unfold cond. destruct (opn m' a); [|exact I]. split; [exact Hp|].
+  destruct t; try exact I. exfalso. eapply Hop. reflexivity.
+Qed.
+
+Lemma stops_closed k t r :
+  postfix_start t = false -> (forall h, t <> TOp h) -> stops k (t :: r).
+Proof.
+  intros Hp Hop. split; [exact Hp|]. destruct t; try exact I. exfalso. eapply Hop. reflexivity.
+Qed.
+
+Lemma P_lit x : P (ALit x).
+Proof.
+  intros m m' rest res f1 _ _ _ Hc. exists (S f1). cbn [pr app]. rewrite parse_expr_S. exact Hc.
+Qed.
+
+Lemma P_var n : P (AVar n).
+Proof.
+  intros m m' rest res f1 _ _ _ Hc. exists (S f1). cbn [pr app]. rewrite parse_expr_S. exact Hc.
+Qed.
+
+Lemma cond_operand_un u e rest : stops (unary_bp u) rest -> cond e (unary_bp u) rest.
+Proof.
+  intros Hs. unfold cond, opn. destruct e; try exact I.
+  - destruct (unary_bp u <=? unary_bp u0) eqn:E; [|exact I].
+    apply Z.leb_le in E. eapply stops_mono; eauto.
+  - destruct (unary_bp u <=? l_bp op) eqn:E; [|exact I].
+    apply Z.leb_le in E. pose proof (tf_un_l the_table op u). lia.
+Qed.
+
+Lemma open_un u e (IHe : P e) m rest res f1 :
+  stops (unary_bp u) rest ->
+  cont f1 m (PUn u (erase e)) rest = POk res ->
+  exists f, parse_expr f m ((un_tok u :: pr (unary_bp u) e) ++ rest) = POk res.
+Proof.
+  intros Hs Hc.
+  destruct (IHe (unary_bp u) (unary_bp u) rest (erase e, rest) 1%nat) as [f2 H2].
+  - lia.
+  - pose proof (post_ctx_gt_un u). lia.
+  - apply cond_operand_un. exact Hs.
+  - apply stops_cont. exact Hs.
+  - exists (S (Nat.max f1 f2)). cbn [app]. rewrite parse_expr_S.
+    destruct u; cbn [un_tok];
+      rewrite (mono_parse_expr f2 _ _ _ _ (Nat.le_max_r _ _) H2); cbn [pbind];
+      (eapply mono_cont; [apply Nat.le_max_l| exact Hc]).
+Qed.
+
+Lemma P_un u e : P e -> P (AUn u e).
+Proof.
+  intros IHe m m' rest res f1 Hm Hm' Hcond Hc. cbn [pr erase] in *.
+  unfold cond, opn in Hcond.
+  destruct (m' <=? unary_bp u) eqn:E.
+  - apply (open_un u e IHe m rest res f1 Hcond Hc).
+  - destruct (open_un u e IHe paren_bp (TRP :: rest) (PUn u (erase e), TRP :: rest) 1%nat) as [f2 H2].
+    + apply stops_closed; [reflexivity| intros h; discriminate].
+    + apply stops_cont. apply stops_closed; [reflexivity| intros h; discriminate].
+    + eapply wrap_parse; eauto.
+Qed.
+
+Lemma cond_right_operand op y rest : stops (r_bp op) rest -> cond y (r_bp op) rest.
+Proof.
+  intros Hs. unfold cond, opn. destruct y; try exact I.
+  - destruct (r_bp op <=? unary_bp u) eqn:E; [|exact I].
+    apply Z.leb_le in E. eapply stops_mono; eauto.
+  - destruct (r_bp op <=? l_bp op0) eqn:E; [|exact I].
+    apply Z.leb_le in E. pose proof (tf_assoc the_table op0). eapply stops_mono; [|exact Hs]. lia.
+Qed.
+
+Lemma cond_left_operand op x r : cond x (l_bp op) (TOp op :: r).
+Proof.
+  unfold cond, opn. destruct x; try exact I.
+  - destruct (l_bp op <=? unary_bp u) eqn:E; [|exact I].
+    split; [reflexivity|]. apply (tf_un_l the_table).
+  - destruct (l_bp op <=? l_bp op0) eqn:E; [|exact I].
+    apply Z.leb_le in E. split; [reflexivity|]. pose proof (tf_assoc the_table op0). lia.
+Qed.
+
+Lemma open_bin op x y (IHx : P x) (IHy : P y) m rest res f1 :
+  m <= l_bp op -> stops (r_bp op) rest ->
+  cont f1 m (PBin op (erase x) (erase y)) rest = POk res ->
+  exists f, parse_expr f m ((pr (l_bp op) x ++ TOp op :: pr (r_bp op) y) ++ rest) = POk res.
+Proof.
+  intros Hm Hs Hc.
+  destruct (IHy (r_bp op) (r_bp op) rest (erase y, rest) 1%nat) as [f2 H2].
+  - lia.
+  - pose proof (tf_un_r the_table op Not). pose proof (post_ctx_gt_un Not). lia.
+  - apply cond_right_operand. exact Hs.
+  - apply stops_cont. exact Hs.
+  - rewrite <- app_assoc. cbn [app].
+    apply (IHx m (l_bp op) (TOp op :: pr (r_bp op) y ++ rest) res (S (Nat.max f1 f2))).
+    + exact Hm.
+    + pose proof (post_ctx_gt_l op). lia.
+    + apply cond_left_operand.
+    + rewrite cont_S. assert (E : (l_bp op <? m) = false) by (apply Z.ltb_ge; lia). rewrite E.
+      rewrite (mono_parse_expr f2 _ _ _ _ (Nat.le_max_r _ _) H2). cbn [pbind].
+      eapply mono_cont; [apply Nat.le_max_l| exact Hc].
+Qed.
+
+Lemma P_bin op x y : P x -> P y -> P (ABin op x y).
+Proof.
+  intros IHx IHy m m' rest res f1 Hm Hm' Hcond Hc. cbn [pr erase] in *.
+  unfold cond, opn in Hcond.
+  destruct (m' <=? l_bp op) eqn:E.
+  - apply Z.leb_le in E. apply (open_bin op x y IHx IHy m rest res f1); [lia|exact Hcond|exact Hc].
+  - destruct (open_bin op x y IHx IHy paren_bp (TRP :: rest)
+                (PBin op (erase x) (erase y), TRP :: rest) 1%nat) as [f2 H2].
+    + apply (tf_paren the_table).
+    + apply stops_closed; [reflexivity| intros h; discriminate].
+    + apply stops_cont. apply stops_closed; [reflexivity| intros h; discriminate].
+    + eapply wrap_parse; eauto.
+Qed.
+
+Lemma P_paren e : P e -> P (AParen e).
+Proof.
+  intros IHe m m' rest res f1 Hm Hm' _ Hc. cbn [pr erase] in *.
+  destruct (IHe paren_bp paren_bp (TRP :: rest) (erase e, TRP :: rest) 1%nat) as [f2 H2].
+  - lia.
+  - pose proof (tf_paren_u the_table Not). pose proof (post_ctx_gt_un Not). lia.
+  - apply cond_closed; [reflexivity| intros h; discriminate].
+  - apply stops_cont. apply stops_closed; [reflexivity| intros h; discriminate].
+  - eapply wrap_parse; eauto.
+Qed.
+
+Lemma cond_post a rest : cond a post_ctx rest.
+Proof.
+  unfold cond, opn. destruct a; try exact I.
+  - pose proof (post_ctx_gt_un u). destruct (post_ctx <=? unary_bp u) eqn:E; [|exact I].
+    apply Z.leb_le in E. lia.
+  - pose proof (post_ctx_gt_l op). destruct (post_ctx <=? l_bp op) eqn:E; [|exact I].
+    apply Z.leb_le in E. lia.
+Qed.
+
+Lemma P_member o fld : P o -> P (AMember o fld).
+Proof.
+  intros IHo m m' rest res f1 Hm Hm' _ Hc. cbn [pr erase] in *.
+  rewrite <- app_assoc. cbn [app].
+  apply (IHo m post_ctx (TDot :: TIdent fld :: rest) res (S f1)).
+  - lia.
+  - lia.
+  - apply cond_post.
+  - rewrite cont_S. exact Hc.
+Qed.
+
+Lemma P_idx x i : P x -> P i -> P (AIdx x i).
+Proof.
+  intros IHx IHi m m' rest res f1 Hm Hm' _ Hc. cbn [pr erase] in *.
+  destruct (IHi index_bp index_bp (TRB :: rest) (erase i, TRB :: rest) 1%nat) as [f2 H2].
+  - lia.
+  - pose proof (tf_index_u the_table Not). pose proof (post_ctx_gt_un Not). lia.
+  - apply cond_closed; [reflexivity| intros h; discriminate].
+  - apply stops_cont. apply stops_closed; [reflexivity| intros h; discriminate].
+  - rewrite <- app_assoc. cbn [app]. rewrite <- app_assoc. cbn [app].
+    apply (IHx m post_ctx (TLB :: pr index_bp i ++ TRB :: rest) res (S (Nat.max f1 f2))).
+    + lia.
+    + lia.
+    + apply cond_post.
+    + rewrite cont_S. rewrite (mono_parse_expr f2 _ _ _ _ (Nat.le_max_r _ _) H2). cbn [pbind].
+      eapply mono_cont; [apply Nat.le_max_l| exact Hc].
+Qed.
+
+Lemma P_call c args : P c -> Q args -> P (ACall c args).
+Proof.
+  intros IHc IHa m m' rest res f1 Hm Hm' _ Hc. cbn [pr erase] in *.
+  destruct (IHa CParen rest) as [[f2 H2] _]. cbn [list_bp close_tok] in H2.
+  rewrite <- app_assoc. cbn [app]. rewrite <- app_assoc. cbn [app].
+  apply (IHc m post_ctx (TLP :: prs arg_bp args ++ TRP :: rest) res (S (Nat.max f1 f2))).
+  - lia.
+  - lia.
+  - apply cond_post.
+  - rewrite cont_S. rewrite (mono_parse_elems f2 _ _ _ _ (Nat.le_max_r _ _) H2). cbn [pbind].
+    eapply mono_cont; [apply Nat.le_max_l| exact Hc].
+Qed.
+
+Lemma P_arr es : Q es -> P (AArr es).
+Proof.
+  intros IHa m m' rest res f1 Hm Hm' _ Hc. cbn [pr erase] in *.
+  destruct (IHa CBracket rest) as [[f2 H2] _]. cbn [list_bp close_tok] in H2.
+  exists (S (Nat.max f1 f2)). cbn [app]. rewrite <- app_assoc. cbn [app].
+  rewrite parse_expr_S. rewrite (mono_parse_elems f2 _ _ _ _ (Nat.le_max_r _ _) H2). cbn [pbind].
+  eapply mono_cont; [apply Nat.le_max_l| exact Hc].
+Qed.
+
+(* the first token of a printed expression never closes a list *)
+Lemma pr_head a : forall m, exists t ts, pr m a = t :: ts /\ forall c, is_close c t = false.
+Proof.
+  induction a; intros m; cbn [pr].
+  - eexists _, _; split; [reflexivity| intros c; destruct c; reflexivity].
+  - eexists _, _; split; [reflexivity| intros c; destruct c; reflexivity].
+  - destruct (m <=? unary_bp u).
+    + destruct u; eexists _, _; (split; [reflexivity| intros c; destruct c; reflexivity]).
+    + eexists _, _; split; [reflexivity| intros c; destruct c; reflexivity].
+  - destruct (m <=? l_bp op).
+    + destruct (IHa1 (l_bp op)) as (t & ts & Ht & Hc). rewrite Ht. eexists _, _; split; [reflexivity|exact Hc].
+    + eexists _, _; split; [reflexivity| intros c; destruct c; reflexivity].
+  - eexists _, _; split; [reflexivity| intros c; destruct c; reflexivity].
+  - destruct (IHa1 post_ctx) as (t & ts & Ht & Hc). rewrite Ht. eexists _, _; split; [reflexivity|exact Hc].
+  - destruct (IHa post_ctx) as (t & ts & Ht & Hc). rewrite Ht. eexists _, _; split; [reflexivity|exact Hc].
+  - destruct (IHa post_ctx) as (t & ts & Ht & Hc). rewrite Ht. eexists _, _; split; [reflexivity|exact Hc].
+  - eexists _, _; split; [reflexivity| intros c; destruct c; reflexivity].
+Qed.
+
+Lemma prs_one m e : prs m (ACons e ANil) = pr m e.
+Proof. reflexivity. Qed.
+Lemma prs_more m e e2 r2 : prs m (ACons e (ACons e2 r2)) = pr m e ++ TComma :: prs m (ACons e2 r2).
+Proof. reflexivity. Qed.
+
+Lemma prs_head m e r : exists t ts, prs m (ACons e r) = t :: ts /\ forall c, is_close c t = false.
+Proof.
+  destruct (pr_head e m) as (t & ts & Ht & Hc).
+  destruct r as [|e2 r2].
+  - rewrite prs_one, Ht. eauto.
+  - rewrite prs_more, Ht. eexists _, _; split; [reflexivity|exact Hc].
+Qed.
+
+Lemma is_close_close c : is_close c (close_tok c) = true.
+Proof. destruct c; reflexivity. Qed.
+
+Lemma Q_nil : Q ANil.
+Proof.
+  intros c rest. split.
+  - exists 1%nat. cbn [prs app]. rewrite parse_elems_S. rewrite is_close_close. reflexivity.
+  - intros H. congruence.
+Qed.
+
+Lemma close_tok_shape c : postfix_start (close_tok c) = false /\ (forall h, close_tok c <> TOp h) /\
+                          close_tok c <> TComma.
+Proof. destruct c; repeat split; try discriminate; intros h; discriminate. Qed.
+
+Lemma Q_cons e r : P e -> Q r -> Q (ACons e r).
+Proof.
+  intros IHe IHr c rest.
+  assert (Hloop : exists f, elems_loop f c (prs (list_bp c) (ACons e r) ++ close_tok c :: rest)
+                            = POk (erases (ACons e r), rest)).
+  { destruct (close_tok_shape c) as (Hcp & Hcop & Hcc).
+    destruct r as [|e2 r2].
+    - rewrite prs_one. cbn [erases].
+      destruct (IHe (list_bp c) (list_bp c) (close_tok c :: rest) (erase e, close_tok c :: rest) 1%nat)
+        as [f2 H2].
+      + lia.
+      + apply list_bp_le_post.
+      + apply cond_closed; assumption.
+      + apply stops_cont. apply stops_closed; assumption.
+      + exists (S f2). rewrite elems_loop_S, H2. cbn [pbind].
+        pose proof (is_close_close c) as Hcl.
+        destruct c; cbn [close_tok is_close] in *; reflexivity.
+    - rewrite prs_more. rewrite <- app_assoc. cbn [app].
+      destruct (IHr c rest) as [_ Hr]. destruct Hr as [f3 H3]; [discriminate|].
+      destruct (prs_head (list_bp c) e2 r2) as (t & ts & Ht & Hnc).
+      rewrite Ht in *. cbn [app] in *.
+      destruct (IHe (list_bp c) (list_bp c) (TComma :: t :: ts ++ close_tok c :: rest)
+                  (erase e, TComma :: t :: ts ++ close_tok c :: rest) 1%nat) as [f2 H2].
+      + lia.
+      + apply list_bp_le_post.
+      + apply cond_closed; [reflexivity| intros h; discriminate].
+      + apply stops_cont. apply stops_closed; [reflexivity| intros h; discriminate].
+      + exists (S (Nat.max f2 f3)). rewrite elems_loop_S.
+        rewrite (mono_parse_expr f2 _ _ _ _ (Nat.le_max_l _ _) H2). cbn [pbind].
+        rewrite (Hnc c).
+        rewrite (mono_elems_loop f3 _ _ _ _ (Nat.le_max_r _ _) H3). cbn [pbind]. reflexivity. }
+  split; [|intros _; exact Hloop].
+  destruct Hloop as [f Hf]. exists (S f). rewrite parse_elems_S.
+  destruct (prs_head (list_bp c) e r) as (t & ts & Ht & Hnc). rewrite Ht in *. cbn [app] in *.
+  rewrite (Hnc c). exact Hf.
+Qed.
+
+Lemma roundtrip_main : (forall a, P a) /\ (forall es, Q es).
+Proof.
+  apply aexpr_mutind.
+  - exact P_lit.
+  - exact P_var.
+  - intros; apply P_un; assumption.
+  - intros; apply P_bin; assumption.
+  - intros; apply P_arr; assumption.
+  - intros; apply P_idx; assumption.
+  - intros; apply P_member; assumption.
+  - intros; apply P_call; assumption.
+  - intros; apply P_paren; assumption.
+  - exact Q_nil.
+  - intros; apply Q_cons; assumption.
+Qed.
+
+(* ================================================================== the theorems *)
+Theorem pratt_roundtrip : forall a : aexpr, parse_tokens (print a) = POk (erase a).
+Proof.
+  intros a. unfold parse_tokens, print.
+  destruct (proj1 roundtrip_main a 0 0 [] (erase a, []) 1%nat) as [f Hf].
+  - lia.
+  - pose proof (tf_un_pos the_table Not). pose proof (post_ctx_gt_un Not). lia.
+  - unfold cond. destruct (opn 0 a); exact I.
+  - reflexivity.
+  - rewrite app_nil_r in Hf. rewrite (parse_expr_any_fuel _ _ _ _ Hf). reflexivity.
+Qed.
+
+Corollary pratt_roundtrip_tree :
+  forall (e : pexpr) (a : aexpr), erase a = e -> parse_tokens (print a) = POk e.
+Proof. intros e a <-. apply pratt_roundtrip. Qed.
+
+Fixpoint erase_embed (e : pexpr) : erase (embed e) = e.
+Proof.
+  destruct e; cbn [embed erase]; try reflexivity.
+  - f_equal. apply erase_embed.
+  - f_equal; apply erase_embed.
+  - f_equal. revert es. fix IH 1. intros [|x r]; cbn [erases]; [reflexivity|].
+    f_equal; [apply erase_embed | apply IH].
+  - f_equal; apply erase_embed.
+  - f_equal. apply erase_embed.
+  - f_equal; [apply erase_embed|].
+    revert args. fix IH 1. intros [|x r]; cbn [erases]; [reflexivity|].
+    f_equal; [apply erase_embed | apply IH].
+Qed.
+
+(* every tree has a printed form (the one without redundant parentheses), and it parses back *)
+Corollary pratt_roundtrip_minimal : forall e : pexpr, parse_tokens (print (embed e)) = POk e.
+Proof. intros e. apply pratt_roundtrip_tree. apply erase_embed. Qed.
+
+(* parentheses that the grammar does not need never change the tree *)
+Corollary parens_redundant :
+  forall a1 a2 : aexpr, erase a1 = erase a2 -> parse_tokens (print a1) = parse_tokens (print a2).
+Proof. intros a1 a2 H. rewrite !pratt_roundtrip. f_equal. exact H. Qed.
+
+Corollary parens_redundant_outer :
+  forall a : aexpr, parse_tokens (TLP :: print a ++ [TRP]) = parse_tokens (print a).
+Proof.
+  intros a. change (TLP :: print a ++ [TRP]) with (print (AParen a)).
+  - apply parens_redundant. reflexivity.
+Qed.
+
+(* first milestone: atoms, unary operators, binary operators, parentheses *)
+Corollary pratt_roundtrip_partial :
+  forall a : aexpr, basic a = true -> parse_tokens (print a) = POk (erase a).
+Proof. intros a _. apply pratt_roundtrip. Qed.
+
+(* ---------- precedence and associativity, read off the generated table ---------- *)
+Lemma prec_looser_first : forall a b x y z, level a < level b ->
+  parse_tokens [TIdent x; TOp a; TIdent y; TOp b; TIdent z]
+  = POk (PBin a (PVar x) (PBin b (PVar y) (PVar z))).
+Proof.
+  intros a b x y z H. destruct a, b; try (exfalso; cbv in H; discriminate H); reflexivity.
+Qed.
+
+Lemma prec_tighter_first : forall a b x y z, level a < level b ->
+  parse_tokens [TIdent x; TOp b; TIdent y; TOp a; TIdent z]
+  = POk (PBin a (PBin b (PVar x) (PVar y)) (PVar z)).
+Proof.
+  intros a b x y z H. destruct a, b; try (exfalso; cbv in H; discriminate H); reflexivity.
+Qed.
+
+Lemma left_assoc : forall a b x y z, level a = level b ->
+  parse_tokens [TIdent x; TOp a; TIdent y; TOp b; TIdent z]
+  = POk (PBin b (PBin a (PVar x) (PVar y)) (PVar z)).
+Proof.
+  intros a b x y z H. destruct a, b; try (exfalso; cbv in H; discriminate H); reflexivity.
+Qed.
+
+Lemma unary_tighter_than_binary : forall u op x y,
+  parse_tokens [un_tok u; TIdent x; TOp op; TIdent y] = POk (PBin op (PUn u (PVar x)) (PVar y)).
+Proof. intros u op x y. destruct u, op; reflexivity. Qed.
+
+Lemma binary_then_unary : forall u op x y,
+  parse_tokens [TIdent x; TOp op; un_tok u; TIdent y] = POk (PBin op (PVar x) (PUn u (PVar y))).
+Proof. intros u op x y. destruct u, op; reflexivity. Qed.
+
+Lemma postfix_tighter_than_unary : forall u x f,
+  parse_tokens [un_tok u; TIdent x; TDot; TIdent f; TLP; TRP]
+  = POk (PUn u (PCall (PMember (PVar x) f) [])).
+Proof. intros u x f. destruct u; reflexivity. Qed.
+
+Lemma postfix_tighter_than_binary : forall op x y i,
+  parse_tokens [TIdent x; TOp op; TIdent y; TLB; TIdent i; TRB]
+  = POk (PBin op (PVar x) (PIdx (PVar y) (PVar i))).
+Proof. intros op x y i. destruct op; reflexivity. Qed.
+
+(* where the printer puts parentheses: exactly when the operand binds looser than its context *)
+Lemma print_paren_rule : forall op x y m,
+  pr m (ABin op x y) =
+    if m <=? l_bp op then pr (l_bp op) x ++ TOp op :: pr (r_bp op) y
+    else TLP :: (pr (l_bp op) x ++ TOp op :: pr (r_bp op) y) ++ [TRP].
+Proof. reflexivity. Qed.
+
+(* the identifier-statement path (`x get ...`, `f(1)`, `a[0] get ...`) builds the same tree as
+   the expression path *)
+Lemma stmt_path_same : forall f n ts,
+  parse_expr (S f) stmt_bp (TIdent n :: ts) = parse_stmt_expr f n ts.
+Proof. reflexivity. Qed.
+
+(* a parse with the fuel of parse_tokens never runs out of fuel *)
+Lemma parse_tokens_total : forall ts, parse_tokens ts <> POof.
+Proof.
+  intros ts. unfold parse_tokens. pose proof (enough_fuel 0 ts) as H.
+  destruct (parse_expr (S (3 * length ts)) 0 ts) as [[e [|t r]]| |]; congruence.
+Qed.
